@@ -247,6 +247,24 @@ fn run_nonces(cx: &mut CaseCx, _case: &Value) {
       issue(cx, &mut seen, &w, format!("{} (request repeated, #{})", label, rep), b, *md);
     }
   }
+  // clones and restored servers are further provers for the same key: no commitment may repeat across them
+  let clone = w.server.clone();
+  let restored = {
+    let mut f = pp::Server::new(vec![9]).expect("server");
+    let st: pp::ServerKeyState = bincode::deserialize(&bincode::serialize(&w.server.get_private_key()).expect("export")).expect("state");
+    f.set_private_key(st);
+    f
+  };
+  let w_clone = World { server: clone, pk: w.pk.clone(), pkb: w.pkb.clone() };
+  let w_rest = World { server: restored, pk: w.pk.clone(), pkb: w.pkb.clone() };
+  let w_clone2 = World { server: w_clone.server.clone(), pk: w.pk.clone(), pkb: w.pkb.clone() };
+  for round in 0..3 {
+    for (b, md, label) in reqs.iter().take(8) {
+      for (who, ww) in [("original", &w), ("clone", &w_clone), ("restored from exported state", &w_rest), ("clone of the clone", &w_clone2)] {
+        issue(cx, &mut seen, ww, format!("{} by the {} server (round {})", label, who, round), b, *md);
+      }
+    }
+  }
   cx.count("proofs_issued", seen.len() as u64);
   // informational: with replayed entropy the commitment repeats (the nonce is drawn from the entropy source)
   let (b, md, _) = &reqs[0];
@@ -292,7 +310,7 @@ pub fn spec() -> PropSpec {
         run: run_soundness,
         min_counts: &[("tampering_rejected", 2000), ("rejected_at_load", 10)],
       },
-      Check { name: "nonces", rule: "commitment s*G + c*PK recomputed for every proof issued (6 inputs x 4 tags x the identical request repeated 4 times): pairwise distinct", gen: |_| vec![json!({})], run: run_nonces, min_counts: &[("proofs_issued", 90)] },
+      Check { name: "nonces", rule: "commitment s*G + c*PK recomputed for every proof issued (6 inputs x 4 tags x the identical request repeated 4 times; then the same requests answered in lockstep by the original server, a clone, a clone of the clone and a server restored from the exported state): pairwise distinct", gen: |_| vec![json!({})], run: run_nonces, min_counts: &[("proofs_issued", 90)] },
     ],
   }
 }
